@@ -43,7 +43,7 @@ package basicauth
 //@   // partial table behind, so the repaired file loads afterwards as in a fresh process)
 //@   ensures [only_fully_parsed_files_are_cached] forallT(k, string, (has(htpasswords, k) && !old(htpasswords != nil && has(htpasswords, k))) ==> (k == key() && parsedOK == 1))
 
-//@ unit basicauth_handler frames=on props=C03,C12,C19 filter=`BasicAuth\)\.ServeHTTP$`
+//@ unit basicauth_handler frames=on props=C03,C12,C19,C09 filter=`BasicAuth\)\.ServeHTTP$`
 //@ // the replacer constructor only wraps the request body for {request_body}; nothing this handler reads (explicit frame-empty assumption)
 //@ extern github.com/tmpim/casket/caskethttp/httpserver.NewReplacer
 //@   ensures result != nil
@@ -70,6 +70,8 @@ package basicauth
 //@ define okCred(i int) bool = ret(2, old(r).BasicAuth()) && ret(0, old(r).BasicAuth()) == a.Rules[i].Username && a.Rules[i].Password(ret(1, old(r).BasicAuth()))
 //@ define stable() bool = calledNext == old(calledNext) && r != nil && r.URL == old(r.URL) && r.URL != nil && r.URL.Path == old(r.URL.Path) && ret(0, r.BasicAuth()) == ret(0, old(r).BasicAuth()) && ret(1, r.BasicAuth()) == ret(1, old(r).BasicAuth()) && ret(2, r.BasicAuth()) == ret(2, old(r).BasicAuth())
 
+//@ // C09 reads this contract too: the decision is stated over r.URL.Path AS IT ARRIVES at this handler - i.e. as the
+//@ // directives earlier in the fixed order (rewrite, tryfiles, ext) left it - not over the URL the client first sent
 //@ func (BasicAuth).ServeHTTP
 //@   modifies ghost:calledNext
 //@   requires r != nil && r.URL != nil
